@@ -88,6 +88,24 @@ def replay_algebra(cex):
     return len(bad) > 0, {"failed": sorted(set(bad))}
 
 
+def replay_alias(cex):
+    from acryo import Molecules
+    from scipy.spatial.transform import Rotation
+
+    bad = []
+    for nm in ("rotate_by", "rotate_by_rotvec_internal", "translate", "copy", "with_features"):
+        m = Molecules(np.array([[1.0, 2.0, 3.0], [4.0, 5.0, 6.0]]), Rotation.from_rotvec([[0.1, 0.2, 0.3], [0.3, 0.2, 0.1]]), features={"a": [1, 2]})
+        p0, q0 = m.pos.copy(), m.quaternion().copy()
+        g = Rotation.from_rotvec([[0.2, 0.0, 0.1]] * 2)
+        c = {"rotate_by": lambda: m.rotate_by(g), "rotate_by_rotvec_internal": lambda: m.rotate_by_rotvec_internal([[0.1, 0.0, 0.2]] * 2), "translate": lambda: m.translate([1, 1, 1]),
+             "copy": lambda: m.copy(), "with_features": lambda: m.with_features(__import__("polars").col("a") + 1)}[nm]()
+        c.translate([5.0, 5.0, 5.0], copy=False)
+        c.rotate_by(g, copy=False)
+        if not (np.allclose(m.pos, p0) and np.allclose(m.quaternion(), q0)):
+            bad.append(nm)
+    return len(bad) > 0, {"original_changed_after_in_place_edit_of": bad}
+
+
 # ---------------------------------------------------------------------------------------
 
 
@@ -160,6 +178,15 @@ def sec_motion(rec, qm=None, patches=None):
         out["fwd"] = m.linear_transform(to_symarray([s]), grot)
         out["inv"] = m.linear_transform(to_symarray([s]), grot, inv=True)
         out["copy"] = m.copy()
+        # two-step histories: an in-place edit of a copy=True result must not reach the original
+        chained = {}
+        for nm in ("rotate_by", "rotvec_internal", "translate", "copy"):
+            c = {"rotate_by": lambda: m.rotate_by(grot), "rotvec_internal": lambda: m.rotate_by_rotvec_internal(v), "translate": lambda: m.translate(to_symarray(s)),
+                 "copy": lambda: m.copy()}[nm]()
+            c.translate(to_symarray(s), copy=False)
+            c.rotate_by(grot, copy=False)
+            chained[nm] = [m.pos[0, a] for a in range(3)] + list(m.quaternion()[0])
+        out["_chained"] = chained
         return m, out
 
     for pi, pth in enumerate(explore(run, assumptions=hyps, max_paths=20)):
@@ -206,8 +233,13 @@ def sec_motion(rec, qm=None, patches=None):
         same = all(z3.eq(zr(m.pos[0, a]), p[a].e) for a in range(3)) and all(Fraction(_coerce(m.quaternion()[0, k])) == Fraction(qm[k]) for k in range(4)) \
             and m.features["f"].to_list() == [7]
         rec.fact(f"{tag}/original-untouched-by-copy=True-operations", bool(same), key="C11/motion/copy-mutates-original", detail={})
+        chained = out.pop("_chained")
+        for nm, vals in chained.items():
+            okc = all(z3.eq(z3.simplify(zr(vals[a])), p[a].e) for a in range(3)) and all(Fraction(_coerce(vals[3 + k])) == Fraction(qm[k]) for k in range(4))
+            okr, det = (True, {}) if okc else replay_alias({})
+            rec.fact(f"{tag}/{nm}-then-in-place-edit-of-the-result/original-untouched", bool(okc), key="C11/motion/copy-aliases-original", detail={"first_op": nm, **det}, reproduced=okr)
         for nm, o in out.items():
-            rec.fact(f"{tag}/{nm}/new-object", o is not m and o.pos is not m.pos, key="C11/motion/copy-aliases-original", detail={"op": nm})
+            rec.fact(f"{tag}/{nm}/new-object", o is not m, key="C11/motion/returns-self-when-copy", detail={"op": nm})
         cp = out["copy"]
         rec.fact(f"{tag}/copy/equal-content", all(z3.eq(zr(cp.pos[0, a]), p[a].e) for a in range(3)) and cp.features["f"].to_list() == [7], key="C11/motion/copy-content", detail={})
 
